@@ -7,6 +7,7 @@ import SvgVerif.Model.Wire
 import SvgVerif.Model.Transform
 import SvgVerif.Model.Length
 import SvgVerif.Model.Color
+import SvgVerif.Model.Viewbox
 open Svg Svg.Wire
 
 def fmtMat (m : Mat Float) : String :=
@@ -117,8 +118,19 @@ def c13set (ch : String) (v : Nat) (x : Int) : String :=
   | "argb" => toString (Color.setArgb x.toNat) | "rgba" => toString x.toNat
   | _ => "bad-op"
 
+-- ---------------------------------------------------------------- C11
+def boxOf : List Float → Box Float
+  | [x, y, w, h] => ⟨x, y, w, h⟩
+  | _ => ⟨0, 0, 0, 0⟩
+
 def step (line : String) : String :=
   match line.splitOn "\t" with
+  | ["c11.vt", e, vb, asp] =>
+      let a := Aspect.ofAttr (if asp = "-" then none else some (stringOfHex asp).toList)
+      let vbo := if vb = "-" then none else some (boxOf (fl vb))
+      (match viewportTransform (boxOf (fl e)) vbo a with
+       | some m => "OK " ++ fmtMat m
+       | none => "OK disabled")
   | ["c13.parse", s] =>
       (match Color.parse numF (6.283185307179586 : Float) (stringOfHex s).toList with
        | some v => "OK " ++ toString v
